@@ -92,14 +92,28 @@ func c18Transcripts(c *kc.Ctx) []kc.Case {
 				data = rng.Bytes(rng.Intn(el + 1))
 			}
 			seed := rng.U64()
-			key := fmt.Sprintf("embed|%d|%v|%x", seed, data == nil, data)
+			// some streams begin with bytes that are special as a candidate encoding: the identity, points of
+			// small order, non-canonical and all-ff strings; the rest of the stream is seeded
+			var prefix []byte
+			pl := insts[0].Group.PointLen()
+			switch (i / 8) % 6 {
+			case 1:
+				prefix = make([]byte, pl) // all zero
+			case 2:
+				prefix = bytes.Repeat([]byte{0xff}, pl)
+			case 3:
+				prefix = c18SpecialEncoding(m, i/48, pl)
+			case 4:
+				prefix = append(c18SpecialEncoding(m, i/48+1, pl), c18SpecialEncoding(m, i/48+2, pl)...)
+			}
+			key := fmt.Sprintf("embed|%d|%v|%x|%x", seed, data == nil, data, prefix)
 			for _, g := range insts {
 				g := g
 				done := c.Watch(120*time.Second, g.Name+":Embed", fmt.Sprintf("%s/%s: Embed(%x) on a seeded stream", g.Name, groups.BuildConfig, data),
 					map[string]string{"group": g.Name, "build": groups.BuildConfig, "data": kc.HexB(data), "stream_seed": fmt.Sprint(seed)}, "proof")
 				got := kc.Recover(func() string {
 					defer done()
-					p := g.Group.Point().Embed(data, kc.NewRng(seed))
+					p := g.Group.Point().Embed(data, &c18PrefixStream{prefix: append([]byte{}, prefix...), tail: kc.NewRng(seed)})
 					d, err := p.Data()
 					ds := kc.HexB(d)
 					if err != nil {
@@ -112,6 +126,49 @@ func c18Transcripts(c *kc.Ctx) []kc.Case {
 		}
 	}
 	return cases
+}
+
+// c18PrefixStream delivers `prefix` first, then a seeded stream.
+type c18PrefixStream struct {
+	prefix []byte
+	tail   *kc.Rng
+}
+
+func (s *c18PrefixStream) XORKeyStream(dst, src []byte) {
+	n := copy(dst, s.prefix)
+	for i := 0; i < n; i++ {
+		dst[i] ^= src[i]
+	}
+	s.prefix = s.prefix[n:]
+	if n < len(dst) {
+		s.tail.XORKeyStream(dst[n:], src[n:])
+	}
+}
+
+// c18SpecialEncoding: candidate encodings that are special for a group (Edwards: the points of order 1, 2, 4, 8
+// and non-canonical forms; elsewhere small values).
+func c18SpecialEncoding(math string, k, pl int) []byte {
+	if math == "ed25519" {
+		specials := []string{
+			"0100000000000000000000000000000000000000000000000000000000000000",
+			"ecffffffffffffffffffffffffffffffffffffffffffffffffffffffffffff7f",
+			"0000000000000000000000000000000000000000000000000000000000000000",
+			"0000000000000000000000000000000000000000000000000000000000000080",
+			"26e8958fc2b227b045c3f489f2ef98f0d5dfac05d3c63339b13802886d53fc05",
+			"26e8958fc2b227b045c3f489f2ef98f0d5dfac05d3c63339b13802886d53fc85",
+			"c7176a703d4dd84fba3c0b760d10670f2a2053fa2c39ccc64ec7fd7792ac037a",
+			"c7176a703d4dd84fba3c0b760d10670f2a2053fa2c39ccc64ec7fd7792ac03fa",
+			"edffffffffffffffffffffffffffffffffffffffffffffffffffffffffffff7f",
+			"eeffffffffffffffffffffffffffffffffffffffffffffffffffffffffffff7f",
+		}
+		return mustHex(specials[((k%len(specials))+len(specials))%len(specials)])
+	}
+	b := make([]byte, pl)
+	b[pl-1] = byte(k % 7)
+	if k%2 == 1 {
+		b[0] = byte(k % 5)
+	}
+	return b
 }
 
 func runC18(c *kc.Ctx) {
